@@ -465,20 +465,79 @@ def r4_file_insert_append(rep, src):
 
 
 def r_sort(rep, src):
+    """sort_fields of both paragraph classes interpreted on symbolic heaps; `sorted` is modelled as a fixed permutation
+    (reversal) of whatever sequence it is given, so the result must be the reversal of the *field order* (not of the
+    dictionary order, which differs in the test heap); the last field is terminated before anything is re-ordered"""
+    A, B, C = H.Key('a', 'A'), H.Key('b', 'B'), H.Key('c', 'C')
     for cname in (NOD, DUP):
         f = src.func('%s:%s.sort_fields' % (PM, cname))
         rep.saw_func(f)
-        t = norm(f.node)
-        first_for = [s for s in f.node.body if isinstance(s, ast.For)]
-        ok_nl = first_for and 'add_final_newline_if_missing()' in norm(first_for[0]) and 'reversed(self._kvpair_order)' in norm(first_for[0].iter)
-        rebuild = ('self._kvpair_order = OrderedSet(sorted(self._kvpair_order, key=key))' in t) if cname == NOD else \
-            ('sorted_kvpair_list = sorted(self._kvpair_order, key=_actual_key)' in t and 'self._init_kvpair_fields(sorted_kvpair_list)' in t
-             and 'self._kvpair_order = LinkedList()' in t and 'self._kvpair_elements = {}' in t)
-        if ok_nl and rebuild and first_for[0].lineno < [s.lineno for s in ast.walk(f.node) if isinstance(s, ast.Assign) and '_kvpair_order' in norm(s.targets[0])][0]:
-            rep.ok('C10.R2', f.site, 'sort: final newline first, then both structures rebuilt from the stable sort', 'ok')
+        log = []
+        heap = mk_heap(src, log)
+
+        def nl_value(it, args, kw, log=log):
+            log.append(('newline-value', args[0].name if isinstance(args[0], H.Ref) else None, it.h.version))
+            return None
+        heap.hooks['.add_final_newline_if_missing'] = nl_value
+        heap.hooks['sorted'] = lambda it, args, kw: list(reversed(it.seq(args[0])))
+        heap.hooks['default_field_sort_key'] = lambda it, args, kw: args[0]
+        heap.hooks['cast'] = lambda it, args, kw: args[1]
+        if cname == DUP:
+            names = [B, A, B, C]
+            para, kvs, _nodes = build_dup(heap, names)
+            for kv in kvs:
+                heap.objs[kv.name]['value_element'] = heap.alloc('Deb822ValueElement', {}, name='@val_' + kv.name[len('@kv_'):])
+            before = [k.name[len('@kv_'):] for k in kvs]
         else:
-            rep.fail('C10.R2', f.site, 'sort: final newline first, then both structures rebuilt from the stable sort',
-                     'sort_fields does not terminate the last field before re-ordering, or does not rebuild order and occurrence lists together', where=f.where)
+            keys = [B, A, C]
+            lst, nodes = H.build_list(heap, keys)
+            table = heap.new_dict('@table')
+            for k, n in zip(keys, nodes):
+                heap.objs[table.name]['entries'].append((k, n))
+            oset = heap.alloc('OrderedSet', {'_OrderedSet__table': table, '_OrderedSet__order': lst}, name='@set')
+            d = heap.new_dict('@elements')
+            kvd = {}
+            for k in [A, B, C]:        # dictionary order differs from field order on purpose
+                kv = mk_kv(heap, k, k.cls + '0')
+                heap.objs[kv.name]['value_element'] = heap.alloc('Deb822ValueElement', {}, name='@val_' + k.cls + '0')
+                kvd[k.cls] = kv
+                heap.objs[d.name]['entries'].append((k, kv))
+            para = heap.alloc(NOD, {'_kvpair_order': oset, '_kvpair_elements': d, 'parent_element': None}, name='@para')
+            before = ['b0', 'a0', 'c0']
+        heap.mark()
+        v0 = heap.version
+        what = 'sort_fields on [%s]' % ' '.join(before)
+        try:
+            H.Interp(heap).call(H.Closure(f.node, {}, para, f.cls), [None])
+        except H.Raised as x:
+            rep.fail('C10.R2', f.site, what, 'raises %s' % x.exc, where=f.where)
+            continue
+        problems = []
+        if cname == DUP:
+            order, index, problems = read_dup(heap, para)
+            if index != model_index(order):
+                problems.append('occurrence lists %r do not match the new order %s' % (index, order))
+        else:
+            oset2 = heap.objs[para.name]['_kvpair_order']
+            o = heap.objs[oset2.name]
+            seq, problems = H.read_list(heap, o['_OrderedSet__order'])
+            order = [heap.objs[n.name]['value'].cls + '0' for n in seq]
+            tab = o['_OrderedSet__table']
+            if sorted(k.cls for k, _ in heap.objs[tab.name]['entries']) != sorted(x[0] for x in order):
+                problems.append('the key table of the new order does not hold the same fields')
+            if sorted(k.cls for k, _ in heap.objs[heap.objs[para.name]['_kvpair_elements'].name]['entries']) != ['a', 'b', 'c']:
+                problems.append('the element table changed')
+        want = list(reversed(before))
+        if order != want:
+            problems.append('the new field order is %s; sorting the current field order must give %s (the sort is stable with respect to the order the fields have now)' % (order, want))
+        nl = [e for e in log if e[0] == 'newline-value']
+        last = '@val_' + before[-1]
+        if not nl or nl[0][1] != last or nl[0][2] != v0:
+            problems.append('the value of the last field (%s) is not terminated with a newline before the fields are re-ordered (terminated: %s)' % (before[-1], [e[1] for e in nl]))
+        if problems:
+            rep.fail('C10.R2', f.site, what, '; '.join(problems), where=f.where)
+        else:
+            rep.ok('C10.R2', f.site, what, '→ %s, last value terminated first' % ' '.join(order))
 
 
 def check(src, rep, tier):
